@@ -484,3 +484,57 @@ def check_C07(tier, seed):
     rep.assumptions += ['programs that leave the specified part of Python semantics (binary float arithmetic, int/int division, '
                         'non-ASCII case mapping, ...) are counted as left-domain and not as validated']
     return rep.finish()
+
+
+def check_C08(tier, seed):
+    from . import decimal_conf
+    quick = tier == 'quick'
+    rep = Report('C08', tier, seed)
+    devs = engine.open_deviations()
+    rep.notes['rule'] = ('TLC: SQDecimal (the decimal arithmetic of the specification, parametric in the precision) checked exhaustively at '
+                         'precisions 1-2 (quick) / 1-3 (thorough) against the independent CorrectlyRounded oracle (half-even, exact '
+                         'rational order, sign-of-zero and ideal-exponent rules); conformance of the same module with Python decimal at '
+                         'precision 28 on boundary + random cases (TraceDecimal); code: expression trees over + - * / unary minus, '
+                         'comparisons, round/floor/ceil/abs/int/sum/min/max with boundary literals (carries, ties at the 28th digit, '
+                         '27/28/29-digit operands, long fractions) - every arithmetic node validated by TLC')
+    cfg = engine.write_cfg('MC_Decimal_%d.cfg' % os.getpid(), ['INIT Init', 'NEXT Next', 'INVARIANT Correct', 'CHECK_DEADLOCK FALSE'] +
+                           (['CONSTANT Precs <- QuickPrecs'] if quick else []))
+    res = common.run_tlc('MC_Decimal.tla', cfg=cfg, workers=16, timeout=3000)
+    rep.add_tlc(res, 'MC_Decimal (CorrectlyRounded, precisions %s)' % ('1-2' if quick else '1-3'))
+    if res.rc != 0 or 'Error:' in res.out:
+        rep.machinery.append('MC_Decimal: SQDecimal violates its rounding oracle or TLC failed: %s' % res.out[-1200:])
+    rep.exhaustive = True
+    dc = decimal_conf.run(1500 if quick else 40000, seed + 1)
+    rep.notes['sqdecimal_vs_python_decimal'] = {k: dc.get(k) for k in ('cases', 'ok', 'states', 'wall_s')}
+    rep.states += int(dc.get('states') or 0)
+    rep.transitions += int(dc.get('states') or 0)
+    if not dc.get('ok'):
+        rep.machinery.append('SQDecimal disagrees with Python decimal: %r' % (dc,))
+    scns = families.numeric_programs(seed, 2500 if quick else 25000, host_types=False)
+    cases = [c for c in vmrun.run_scenarios(scns) if 'harness_error' not in c]
+    engine.judge_cases(rep, cases, devs, what='numeric program')
+    rep.assumptions += ['** and float() of non-integral values are specified relationally (Decimal of <= 28 digits); float results are exact '
+                        'binary expansions by definition and excluded from the exactness claim']
+    return rep.finish()
+
+
+def check_C04(tier, seed):
+    quick = tier == 'quick'
+    rep = Report('C04', tier, seed)
+    devs = engine.open_deviations()
+    rep.notes['rule'] = ('TLC: 26 x 26 operand pairs from a boundary universe of every host type (ints of 1..41 digits, bool, floats, '
+                         'Decimals with 28/40-digit coefficients and exponents up to +-10^6, non-numbers) x 25 operations (+ - * / '
+                         'compound and compound-index forms, unary minus, int float round floor ceil abs sum min max, two-step chains): '
+                         'DigitBound (linear growth) and NoRepeat; code: the same scenarios replayed + random chains over host values '
+                         'of all numeric types, every numeric node validated by TLC (so a natively computed product/power shows as a '
+                         'value mismatch); each replay runs under the op budget and a wall-clock guard')
+    res = engine.model_check(rep, 'MC_C04.tla', 'MC_C04.cfg', timeout=900, coverage=not quick)
+    rep.exhaustive = True
+    engine.model_check(rep, 'MC_C04.tla', 'MC_C04.cfg', deviations=['IntViaPyInt'], expect_violation=True, timeout=600)
+    engine.model_check(rep, 'MC_C04.tla', 'MC_C04.cfg', deviations=['ShortMulNative'], expect_violation=True, timeout=600)
+    if not rep.machinery:
+        engine.replay_emitted(rep, _emitted(res), devs, sample=1500 if quick else 16900, seed=seed, what='TLC scenario')
+    scns = families.numeric_programs(seed + 7, 1200 if quick else 20000, host_types=True)
+    cases = [c for c in vmrun.run_scenarios(scns) if 'harness_error' not in c]
+    engine.judge_cases(rep, cases, devs, what='numeric chain')
+    return rep.finish()
